@@ -21,12 +21,23 @@ class CallCtx:
     def __init__(self, ex, args: dict, entry: State, st: State = None, result=None, exc=None):
         self.ex, self.args, self.entry, self.st = ex, args, entry, st
         self.result, self.exc = result, exc
+        self.at_call_site = False      # True when the contract is being applied at a call (clauses about the callee's
+                                       # internal ghost state are meaningful only while the callee itself is verified)
 
     def arg(self, name):
         return self.args[name]
 
     def __getitem__(self, name):
         return self.args[name]
+
+    def get(self, name, default=None):
+        return self.args.get(name, default)
+
+    def items(self):
+        return self.args.items()
+
+    def __contains__(self, name):
+        return name in self.args
 
     def old_list(self, name):
         return self.entry.obj(self.args[name].ref).data
@@ -62,6 +73,11 @@ class CallCtx:
 
     def old_closure(self, name):
         return self.args[name]
+
+
+def _site(ctx):
+    ctx.at_call_site = True
+    return ctx
 
 
 class CallMixin:
@@ -302,7 +318,7 @@ class CallMixin:
                 except KeyError:
                     raise Unsupported(f"{self.loc(node)} closure variable {nme} of {c.target} is unbound")
         entry = st.fork()
-        ctx = CallCtx(self, amap, entry, st)
+        ctx = _site(CallCtx(self, amap, entry, st))
         ctx.cl_frame = cl_frame
         if c.requires is not None:
             self.add_vc("call-pre", f"{c.target.split('::')[-1]}@{self.call_ordinal(node, c.target.split('::')[-1])}", st.pc,
@@ -318,7 +334,7 @@ class CallMixin:
         out = []
         # frame: everything in `modifies` is havocked first, on normal AND exceptional outcomes
         if getattr(c, "frame", None) is not None:
-            c.frame(self, st, amap)
+            c.frame(self, st, _site(CallCtx(self, amap, entry, st)))
         for p in (c.modifies if getattr(c, "frame", None) is None else ()):
             v = amap.get(p)
             if isinstance(v, VRef):
@@ -354,7 +370,7 @@ class CallMixin:
         # exceptional outcomes
         for r in c.raises:
             s2 = st.fork()
-            cx = CallCtx(self, amap, entry, s2)
+            cx = _site(CallCtx(self, amap, entry, s2))
             cx.cl_frame = cl_frame
             cond = self._b(r.when(cx)) if r.when is not None else z3.BoolVal(True)
             if self.feasible(s2.pc, cond):
@@ -374,7 +390,7 @@ class CallMixin:
                 self.raise_in(s2, xv)
         if c.may_raise_any:
             self.exc_any(st.fork(), f"{self.loc(node)} {c.target}")
-        ctx = CallCtx(self, amap, entry, st)
+        ctx = _site(CallCtx(self, amap, entry, st))
         ctx.cl_frame = cl_frame
         for p, fn in c.final.items():
             v = amap[p]
@@ -386,14 +402,16 @@ class CallMixin:
             else:
                 results = [(None, res)]
         else:
-            results = [(None, c.result_maker(self, st, ctx) if c.result_maker else (VUnk("generator") if c.generator else NONE))]
+            rm = c.result_maker(self, st, ctx) if c.result_maker else (VUnk("generator") if c.generator else NONE)
+            # a result_maker may return a case split [(cond | None, V)] like `returns`
+            results = rm if (isinstance(rm, list) and rm and isinstance(rm[0], tuple)) else [(None, rm)]
         for cond, rv in results:
             s2 = st.fork() if len(results) > 1 else st
             if cond is not None:
                 if not self.feasible(s2.pc, cond):
                     continue
                 s2.assume(cond)
-            cx = CallCtx(self, amap, entry, s2, result=rv)
+            cx = _site(CallCtx(self, amap, entry, s2, result=rv))
             cx.cl_frame = cl_frame
             ok = True
             for (_label, e) in c.ensures:
